@@ -59,6 +59,7 @@ fn permute<T>(v: &mut [T]) {
 
 pub struct Par<T> {
     items: Vec<T>,
+    fixed: bool,
 }
 
 pub mod iter {
@@ -81,6 +82,61 @@ pub mod iter {
         }
         fn collect<C: FromIterator<Self::Item>>(self) -> C {
             self.drive().into_iter().collect()
+        }
+        // --- adaptors libmelda does not use today; provided so that a change which reaches for
+        // another common rayon method still builds under the shim (closures run "in parallel")
+        fn all<P: Fn(Self::Item) -> bool + Sync + Send>(self, p: P) -> bool {
+            super::par_map(self.drive(), p).into_iter().all(|b| b)
+        }
+        fn count(self) -> usize {
+            self.drive().len()
+        }
+        fn filter_map<R: Send, F: Fn(Self::Item) -> Option<R> + Sync + Send>(self, f: F) -> super::FilterMap<Self, F> {
+            super::FilterMap { base: self, f }
+        }
+        fn flat_map<I: IntoIterator, F: Fn(Self::Item) -> I + Sync + Send>(self, f: F) -> super::Par<I::Item>
+        where
+            I::Item: Send,
+            I: Send,
+        {
+            let parts: Vec<Vec<I::Item>> = super::par_map(self.drive(), |x| f(x).into_iter().collect::<Vec<_>>());
+            super::Par::from_vec(parts.into_iter().flatten().collect())
+        }
+        fn try_for_each<E: Send, F: Fn(Self::Item) -> Result<(), E> + Sync + Send>(self, f: F) -> Result<(), E> {
+            for r in super::par_map(self.drive(), f) {
+                r?;
+            }
+            Ok(())
+        }
+        fn for_each_with<T: Send + Sync + Clone, F: Fn(&mut T, Self::Item) + Sync + Send>(self, init: T, f: F) {
+            super::par_map(self.drive(), |x| {
+                let mut t = init.clone();
+                f(&mut t, x)
+            });
+        }
+        fn find_any<P: Fn(&Self::Item) -> bool + Sync + Send>(self, p: P) -> Option<Self::Item> {
+            super::par_map(self.drive(), |x| if p(&x) { Some(x) } else { None }).into_iter().flatten().next()
+        }
+        fn find_first<P: Fn(&Self::Item) -> bool + Sync + Send>(self, p: P) -> Option<Self::Item> {
+            self.find_any(p)
+        }
+        fn reduce<ID: Fn() -> Self::Item + Sync + Send, OP: Fn(Self::Item, Self::Item) -> Self::Item + Sync + Send>(self, identity: ID, op: OP) -> Self::Item {
+            self.drive().into_iter().fold(identity(), |a, b| op(a, b))
+        }
+        fn sum<S: std::iter::Sum<Self::Item>>(self) -> S {
+            self.drive().into_iter().sum()
+        }
+        fn min_by_key<K: Ord + Send, F: Fn(&Self::Item) -> K + Sync + Send>(self, f: F) -> Option<Self::Item> {
+            self.drive().into_iter().min_by_key(|x| f(x))
+        }
+        fn max_by_key<K: Ord + Send, F: Fn(&Self::Item) -> K + Sync + Send>(self, f: F) -> Option<Self::Item> {
+            self.drive().into_iter().max_by_key(|x| f(x))
+        }
+        fn enumerate(self) -> super::Par<(usize, Self::Item)> {
+            super::Par::from_vec(self.drive().into_iter().enumerate().collect())
+        }
+        fn collect_into_vec(self, target: &mut Vec<Self::Item>) {
+            *target = self.drive();
         }
     }
     pub trait IntoParallelIterator {
@@ -195,8 +251,29 @@ pub fn loops_on_workers() -> u64 {
 impl<T: Send> ParallelIterator for Par<T> {
     type Item = T;
     fn drive(mut self) -> Vec<T> {
-        permute(&mut self.items);
+        if !self.fixed {
+            permute(&mut self.items);
+        }
         self.items
+    }
+}
+
+impl<T: Send> Par<T> {
+    /// Items already in execution order (no second permutation).
+    pub fn from_vec(items: Vec<T>) -> Par<T> {
+        Par { items, fixed: true }
+    }
+}
+
+pub struct FilterMap<B, F> {
+    base: B,
+    f: F,
+}
+impl<B: ParallelIterator, R: Send, F: Fn(B::Item) -> Option<R> + Sync + Send> ParallelIterator for FilterMap<B, F> {
+    type Item = R;
+    fn drive(self) -> Vec<R> {
+        let f = self.f;
+        par_map(self.base.drive(), f).into_iter().flatten().collect()
     }
 }
 
@@ -229,7 +306,7 @@ macro_rules! into_par {
         $( impl<$($g)*> IntoParallelIterator for $t {
             type Item = $item;
             type Iter = Par<$item>;
-            fn into_par_iter(self) -> Par<$item> { Par { items: self.into_iter().collect() } }
+            fn into_par_iter(self) -> Par<$item> { Par { items: self.into_iter().collect(), fixed: false } }
         } )*
     }
 }
@@ -241,6 +318,23 @@ into_par! {
     Vec<T>, [T: Send], T;
     HashMap<K, V, S>, [K: Send + Eq + std::hash::Hash, V: Send, S: std::hash::BuildHasher], (K, V);
     melda_verif_shim::collections::HashMap<K, V>, [K: Send + Eq + std::hash::Hash, V: Send], (K, V);
+    &'a melda_verif_shim::collections::HashMap<K, V>, ['a, K: Sync + Eq + std::hash::Hash + 'a, V: Sync + 'a], (&'a K, &'a V);
+    &'a HashMap<K, V, S>, ['a, K: Sync + Eq + std::hash::Hash + 'a, V: Sync + 'a, S: std::hash::BuildHasher], (&'a K, &'a V);
+    &'a mut Vec<T>, ['a, T: Send + 'a], &'a mut T;
+    &'a [T], ['a, T: Sync + 'a], &'a T;
+    &'a mut [T], ['a, T: Send + 'a], &'a mut T;
+    std::collections::BTreeSet<T>, [T: Send + Ord], T;
+    &'a std::collections::BTreeSet<T>, ['a, T: Sync + Ord + 'a], &'a T;
+    std::collections::HashSet<T, S>, [T: Send + Eq + std::hash::Hash, S: std::hash::BuildHasher], T;
+    &'a std::collections::HashSet<T, S>, ['a, T: Sync + Eq + std::hash::Hash + 'a, S: std::hash::BuildHasher], &'a T;
+    melda_verif_shim::collections::HashSet<T>, [T: Send + Eq + std::hash::Hash], T;
+    &'a melda_verif_shim::collections::HashSet<T>, ['a, T: Sync + Eq + std::hash::Hash + 'a], &'a T;
+    std::collections::BTreeMap<K, V>, [K: Send + Ord, V: Send], (K, V);
+    std::collections::VecDeque<T>, [T: Send], T;
+    std::ops::Range<usize>, [], usize;
+    std::ops::Range<u32>, [], u32;
+    std::ops::Range<u64>, [], u64;
+    Option<T>, [T: Send], T;
 }
 
 pub mod prelude {
